@@ -9,7 +9,7 @@ from concurrent.futures import ThreadPoolExecutor
 ROOT = os.path.dirname(os.path.dirname(os.path.abspath(__file__)))
 TARGET = f"{ROOT}/target"
 HARNESS = f"{ROOT}/harness"
-REPO = os.path.realpath(f"{HARNESS}/repo")  # a symlink to /repo (background runs may re-point it to a snapshot)
+REPO = os.path.realpath(f"{ROOT}/repo-link")  # a symlink to /repo (background runs may re-point it to a snapshot)
 JOBS = int(os.environ.get("VERIF_JOBS", os.cpu_count() or 4))
 ENV = dict(os.environ)
 ENV.update({"CARGO_NET_OFFLINE": "true", "RUST_BACKTRACE": "0"})
